@@ -27,20 +27,32 @@ RULE = ("script = 3-12 (quick) / 3-20 (thorough) ops over <= 8 trans-id slots (e
         "on a tree built by vf.gen (6-14 ops, commit, 0-6 pending ops; sometimes a merged multi-branch history); non-trivial = >= 3 accepted ops and "
         "(at least one raw conflict met by the resolver, or an applied transform changing >= 2 paths); distinct = format + op-kind sequence + conflict-kind trace + outcome class")
 CASES = {"quick": 400, "thorough": 9000}
-BUDGET_S = {"quick": 25, "thorough": 700}
-# floors sized for a heavily loaded shared machine (about 150 cases fit the quick budget at load 100/16) and for the unrepaired tree,
+BUDGET_S = {"quick": 20, "thorough": 700}
+# a case costs ~0.1 s of CPU, a worker ~1.5 s to boot: on a machine where this process group only gets about one core, six workers
+# get through more quick cases than sixteen
+SHARDS = {"quick": 6, "thorough": 16}
+# floors sized for a heavily loaded shared machine (about 100-150 cases fit the quick budget at load 100-250 on 16 cores) and for the unrepaired tree,
 # where many 2a cases end in a resolver exception before a preview exists
-MIN_EVALS = {"quick": 100, "thorough": 2000}
-FLOORS = {"quick": {"resolve_runs": 100, "cmp_preview_applied": 20, "cmp_preview_reopened": 20, "cmp_changes_basis": 8,
-                    "cmp_tt_iter_changes": 6, "cmp_transform_preview": 8, "malformed_tree_unchanged": 3, "resolver_passes": 60, "pass_progress": 40},
+MIN_EVALS = {"quick": 60, "thorough": 2000}
+FLOORS = {"quick": {"resolve_runs": 60, "cmp_preview_applied": 12, "cmp_preview_reopened": 12, "cmp_changes_basis": 5,
+                    "cmp_tt_iter_changes": 3, "cmp_transform_preview": 5, "malformed_tree_unchanged": 2, "resolver_passes": 40, "pass_progress": 25},
           "thorough": {"resolve_runs": 2000, "cmp_preview_applied": 400, "cmp_preview_reopened": 400, "cmp_changes_basis": 150,
                        "cmp_tt_iter_changes": 100, "cmp_transform_preview": 150, "malformed_tree_unchanged": 60, "resolver_passes": 1500, "pass_progress": 800}}
 ASSUMPTIONS = [
-    "immediate refusals of wrong API use while building the script (DuplicateKey, KeyError, ValueError, CantMoveRoot, OS-level EEXIST/EISDIR on a second create) are counted, not judged",
-    "git mode: paths not ids; directories are not compared (empty directories are not versioned); rename may show as delete+add",
+    "immediate refusals of wrong API use while building the script (DuplicateKey, KeyError, ValueError, CantMoveRoot, OS-level EEXIST/EISDIR on a second create) are counted, not judged; "
+    "any other exception while scheduling an op abandons the case (counted as op-exception)",
+    "input class: the tree root keeps being a directory (no new contents for it); an entry that keeps its tree file id is not given a second one without unversion_file first; "
+    "start trees with a self-referential symlink (every stat gives ELOOP) are discarded",
+    "NoFinalPath (and the KeyError of final_parent on an id that has no parent at all) is the documented refusal for scripts that use a nameless trans id from assign_id(); "
+    "the tree must then be untouched",
+    "git mode: paths not ids; directories are not compared (empty directories are not versioned); iter_changes is compared per path, a rename may show as delete+add",
     "TransformPreview is compared with the applied result only when it met the same refusals and the same conflict trace as the TreeTransform "
-    "(its docstring: it ignores unversioned files of the input tree)",
-    "changed_content of tt.iter_changes may over-report (new contents identical to old); only under-reporting is judged",
+    "(its docstring: it ignores unversioned files of the input tree); file ids fabricated by a resolver are masked in that comparison",
+    "the inventory kind of an entry is compared only when the file is missing on disk; attributes of the non-versioned side of an iter_changes entry are not compared; "
+    "changed_content may over-report (new contents identical to old), only under-reporting is judged",
+    "progress rule: a resolution pass that leaves the transform's scheduled changes exactly as they were, while conflicts that have a resolver are present "
+    "(other than a parent loop through entries the transform itself created), is reported as resolve:no-progress - the ten-pass bound would end it as MalformedTransform, "
+    "but a resolver that does not act is the defect the statement's 'conflict resolution' clause is about",
 ]
 
 CLEAN_REFUSALS = ("DuplicateKey", "KeyError", "ValueError", "CantMoveRoot", "FileExistsError", "IsADirectoryError", "DeadSlot")
@@ -202,7 +214,7 @@ def view_diff_class(pv, ap):
     return "other"
 
 
-def view_diff_labels(pv, ap, before_view, feats):
+def view_diff_labels(pv, ap, before_view, feats, ambiguous=()):
     """Mechanism labels for every difference between a preview view and the applied view.
 
     feats: path -> {"renamed": bool, "new_contents": bool, "new_exec": bool} read from the transform when the preview
@@ -217,6 +229,10 @@ def view_diff_labels(pv, ap, before_view, feats):
     for p in sorted(set(pv) | set(ap)):
         a, b = pv.get(p), ap.get(p)
         if a == b:
+            continue
+        if p in ambiguous:
+            # a deleted + unversioned trans id and a live one share this final path; the preview's path lookup may pick the dead one
+            add("two-trans-ids-one-final-path", p)
             continue
         if a is None:
             bv = before_view.get(p)
@@ -235,8 +251,9 @@ def view_diff_labels(pv, ap, before_view, feats):
                 continue
             if aspect in ("content", "target") and moved_untouched:
                 add("%s-of-moved-file-read-at-final-path" % aspect, p)
-            elif aspect == "exec" and f.get("renamed") and not f.get("new_exec"):
-                add("exec-of-moved-file-read-at-final-path", p)
+            elif aspect == "exec" and (f.get("renamed") or f.get("new")) and not f.get("new_exec"):
+                # no executability scheduled: the preview asks the underlying tree, and asks it about the *final* path
+                add("exec-of-moved-file-read-at-final-path" if f.get("renamed") else "exec-of-new-file-read-from-tree-at-final-path", p)
             else:
                 add(aspect, p)
     return out
@@ -441,9 +458,6 @@ def changed_paths(a, b):
 # ------------------------------------------------------------------ the case
 
 def case(ctx):
-    from breezy import errors
-    from breezy import transform as T
-    from breezy.tree import InterTree
     from breezy.workingtree import WorkingTree
 
     rng = ctx.rng
@@ -470,7 +484,8 @@ def case(ctx):
     ctx.info["script"] = script
 
     tree_ids = [v["file_id"] for v in before["view"].values() if v.get("file_id")]
-    st = S.GenState(candidate_paths(rng, before), tree_ids, not git, before["view"].keys())
+    st = S.GenState(candidate_paths(rng, before), tree_ids, not git, before["view"].keys(), {q: v[0] for q, v in before["disk"].items()},
+                    {q: v["exec"] for q, v in before["view"].items() if v.get("kind") == "file" and "exec" in v})
     nops = rng.randint(3, 12) if ctx.tier == "quick" else rng.randint(3, 20)
 
     wt = WorkingTree.open(p)
@@ -481,7 +496,6 @@ def case(ctx):
     res = Resolution()
     outcome = None
     applied = False
-    pv_view = pv_root = None
     try:
         # ---- build the script online against the real transform
         for step in range(nops):
@@ -653,7 +667,7 @@ def take_preview(ctx, tt, wt, git, label, before, who, nameless_ok):
             try:
                 t = pv._path2trans_id(q)
                 tp_ = tt.tree_path(t)
-                snap["feats"][q] = {"renamed": tp_ is not None and tp_ != q, "new_contents": t in tt._new_contents,
+                snap["feats"][q] = {"renamed": tp_ is not None and tp_ != q, "new": tp_ is None, "new_contents": t in tt._new_contents,
                                     "new_exec": t in tt._new_executability}
             except Exception:
                 pass
@@ -710,7 +724,7 @@ def _mask_fabricated(view, known):
 
 
 def report_view_diff(ctx, prefix, what, snap, after_view, before_view):
-    labels = view_diff_labels(snap["view"], after_view, before_view, snap.get("feats") or {})
+    labels = view_diff_labels(snap["view"], after_view, before_view, snap.get("feats") or {}, snap.get("ambiguous") or ())
     snap["labels"] = labels
     for lab, paths in sorted(labels.items()):
         sub = {q: snap["view"].get(q) for q in paths[:3]}
@@ -723,9 +737,18 @@ def judge_applied(ctx, p, wt, git, label, before, orig, snap):
     from breezy.tree import InterTree
     from breezy.workingtree import WorkingTree
 
-    live_view, live_root = tree_view(wt, git, False)
-    wt2 = WorkingTree.open(p)
-    after_view, after_root = tree_view(wt2, git, False)
+    try:
+        live_view, live_root = tree_view(wt, git, False)
+        wt2 = WorkingTree.open(p)
+        after_view, after_root = tree_view(wt2, git, False)
+    except (KeyboardInterrupt, SystemExit):
+        raise
+    except Exception as e:
+        # the working tree the transform produced cannot be read back through the Tree API
+        snap["after_view"] = {}
+        ctx.fail("applied:%s:tree-unreadable:%s@%s" % (label, type(e).__name__, _where(e.__traceback__)),
+                 "reading the working tree after apply raised %r" % (e,), {"traceback": traceback.format_exc()[-1500:]})
+        return
     snap["after_view"] = after_view
     # the live object and the re-opened tree must agree (what apply wrote is what a new process reads)
     ctx.count("cmp_live_reopened")
@@ -753,9 +776,9 @@ def judge_applied(ctx, p, wt, git, label, before, orig, snap):
     roots = (before["root"], after_root)
     # entries already reported under their own mechanism key are not reported a second time through iter_changes
     skip = set()
-    for lab in ("versioned-file-missing-on-disk-not-listed",):
+    for lab in ("versioned-file-missing-on-disk-not-listed", "two-trans-ids-one-final-path"):
         for q in (snap.get("labels") or {}).get(lab, []):
-            skip.add(q if git else after_view[q].get("file_id"))
+            skip.add(q if git else (after_view.get(q) or snap["view"].get(q) or {}).get("file_id"))
 
     def drop(d):
         return {k: v for k, v in d.items() if k not in skip}
@@ -807,7 +830,7 @@ def judge_applied(ctx, p, wt, git, label, before, orig, snap):
             dk = disk.get(q, (None,))[0]
             if k != dk:
                 # two trans ids (one of them without contents) share the final path: which one a path lookup finds is unspecified
-                lab = "disk-kind:two-trans-ids-one-final-path" if q in snap.get("ambiguous", ()) else "disk-kind"
+                lab = "two-trans-ids-one-final-path" if q in snap.get("ambiguous", ()) else "disk-kind"
                 bad.setdefault(lab, []).append((q, "preview=%r" % (k,), "disk=%r" % (dk,)))
         for lab, items in sorted(bad.items()):
             ctx.fail("preview-vs-applied:%s:%s" % (label, lab), "preview.kind(path) != kind on disk after apply: %r" % (items[:4],), None)
@@ -815,7 +838,6 @@ def judge_applied(ctx, p, wt, git, label, before, orig, snap):
 
 def replay_transform_preview(ctx, orig, ops, refusals, res, git, label, p, before_view):
     """Same script on tree.preview_transform() of the identical copy; its preview tree vs the applied result."""
-    from breezy import transform as T
     from breezy.workingtree import WorkingTree
 
     owt = WorkingTree.open(orig)
@@ -860,8 +882,11 @@ def replay_transform_preview(ctx, orig, ops, refusals, res, git, label, p, befor
         tp.finalize()
     if snap is None or snap["view"] is None:
         return
-    wt2 = WorkingTree.open(p)
-    after_view, after_root = tree_view(wt2, git, False)
+    try:
+        wt2 = WorkingTree.open(p)
+        after_view, after_root = tree_view(wt2, git, False)
+    except Exception:
+        return  # already reported by judge_applied
     ctx.count("cmp_transform_preview")
     # ids the resolver fabricates ("Versioned directory" for a directory that never had one) come from a clock-and-counter
     # generator: two transform objects cannot agree on them.  Ids given by the script or the tree are compared verbatim.
